@@ -195,8 +195,8 @@ def valKids (v : Val) : List Val :=
 def walkV : Nat → Bool → List Nat → Val → List (List Nat × Nat × Bool)
   | 0, _, _, _ => []
   | f + 1, m, path, v =>
-      let here := if v.isSeq then [] else [(path, v.family, m && !v.alwaysImm)]
-      here ++ ((valKids v).zipIdx.flatMap fun (k, i) => walkV f m (path ++ [i]) k)
+      let here := if v.isSeq then [] else [(path, v.family, m)]
+      here ++ ((valKids v).zipIdx.flatMap fun (k, i) => walkV f (m && !k.alwaysImm) (path ++ [i]) k)
 
 def storeTargets (s : Store) (r : Nat) : List (List Nat × Nat × Bool) :=
   match (s[r]?).join with
